@@ -38,7 +38,17 @@ fn gen_text(rng: &mut Rng, len_class: u64) -> String {
 }
 
 fn unknown_item(rng: &mut Rng) -> ([u8; 4], u32, Vec<u8>) {
-    let typ = *rng.pick(&[*b"\xa9too", *b"\xa9alb", *b"trkn", *b"----", *b"cpil", *b"\xa9gen", *b"tvsh", *b"xxxx", *b"free"]);
+    // item types from the iTunes / QuickTime metadata atom list (plus a few that are no item
+    // types at all): an unrelated item is usually a REAL atom of some other meaning, so the
+    // dictionary matters more than random codes - a reader that gives one of them a meaning of
+    // its own (a fallback, an alias) is found only by naming it
+    const ATOMS: [&[u8; 4]; 64] = [
+        b"\xa9too", b"\xa9alb", b"trkn", b"----", b"cpil", b"\xa9gen", b"tvsh", b"xxxx", b"free", b"ldes", b"sdes", b"aART", b"\xa9ART", b"\xa9cmt", b"\xa9grp", b"\xa9lyr",
+        b"\xa9wrt", b"\xa9com", b"\xa9enc", b"\xa9mvn", b"\xa9wrk", b"\xa9des", b"\xa9dir", b"\xa9prd", b"\xa9st3", b"\xa9nrt", b"pgap", b"tmpo", b"disk", b"gnre", b"tven", b"tvsn",
+        b"tves", b"tvnn", b"purd", b"pcst", b"catg", b"keyw", b"purl", b"egid", b"stik", b"rtng", b"hdvd", b"sonm", b"soar", b"soaa", b"soal", b"soco",
+        b"sosn", b"apID", b"cnID", b"atID", b"plID", b"geID", b"sfID", b"akID", b"cprt", b"ownr", b"xid ", b"uuid", b"name", b"titl", b"year", b"dscp",
+    ];
+    let typ = **rng.pick(&ATOMS);
     // one in three unrelated items has arbitrary nested content instead of a `data` box:
     // nothing at all (a header-only item), or raw bytes
     if rng.chance(1, 3) {
